@@ -254,3 +254,55 @@ Definition gen_get_field_values (self : pyindex) (field_key : str) (measurement 
     (_fields self) rst in
   rst)).
 
+Definition gen_get_tag_values (self : pyindex) (tag_keys : list str) (measurement : option str) : list (str * list (option str)) :=
+  let rst := [] in
+  if (andb (negb (opt_truthy measurement)) (negb (nonempty_list tag_keys)))
+  then (let rst := fold_left (fun rst '(tag_key, tag_values) =>
+    let rst := (d_set tag_key [] rst) in
+  let rst := fold_left (fun rst tag_value =>
+    let rst := (d_set tag_key (set_add tag_value (d_get [] tag_key rst)) rst) in
+  rst)
+    (map fst tag_values) rst in
+  rst)
+    (_tags self) rst in
+  rst)
+  else (if (andb (opt_truthy measurement) (negb (nonempty_list tag_keys)))
+  then (if (d_has (opt_str measurement) (_measurements self))
+  then (let measurement_items := (d_get [] (opt_str measurement) (_measurements self)) in
+  let rst := fold_left (fun rst '(tag_key, tag_values) =>
+    let rst := fold_left (fun rst '(tag_value, items) =>
+    let rst := (if (nonempty_list (set_inter measurement_items items)) then (let rst := (if (negb (d_has tag_key rst)) then (let rst := (d_set tag_key [tag_value] rst) in
+  rst) else (let rst := (d_set tag_key (set_add tag_value (d_get [] tag_key rst)) rst) in
+  rst)) in
+  rst) else (rst)) in
+  rst)
+    (d_get [] tag_key (_tags self)) rst in
+  rst)
+    (_tags self) rst in
+  rst)
+  else (rst))
+  else (if (andb (negb (opt_truthy measurement)) (nonempty_list tag_keys))
+  then (let rst := (fold_left (fun acc i => d_set i [] acc) tag_keys []) in
+  let rst := fold_left (fun rst '(tag_key, tag_values) =>
+    let rst := (if (d_has tag_key rst) then (let rst := fold_left (fun rst tag_value =>
+    let rst := (d_set tag_key (set_add tag_value (d_get [] tag_key rst)) rst) in
+  rst)
+    (map fst tag_values) rst in
+  rst) else (rst)) in
+  rst)
+    (_tags self) rst in
+  rst)
+  else (let rst := (fold_left (fun acc i => d_set i [] acc) tag_keys []) in
+  if (d_has (opt_str measurement) (_measurements self))
+  then (let measurement_items := (d_get [] (opt_str measurement) (_measurements self)) in
+  let rst := fold_left (fun rst '(tag_key, tag_values) =>
+    let rst := fold_left (fun rst '(tag_value, items) =>
+    let rst := (if (andb (d_has tag_key rst) (nonempty_list (set_inter measurement_items items))) then (let rst := (d_set tag_key (set_add tag_value (d_get [] tag_key rst)) rst) in
+  rst) else (rst)) in
+  rst)
+    (d_get [] tag_key (_tags self)) rst in
+  rst)
+    (_tags self) rst in
+  rst)
+  else (rst)))).
+
